@@ -424,9 +424,22 @@ impl Default for ListenerCfg {
     }
 }
 
+/// A loopback port nobody else in this process (or a sibling check process) was handed: taken from
+/// a process-wide counter over a pid-dependent range and probed for being bindable.
 pub fn free_port() -> u16 {
-    let l = std::net::TcpListener::bind("127.0.0.1:0").expect("bind");
-    l.local_addr().unwrap().port()
+    use std::sync::atomic::{AtomicU32, Ordering};
+    static NEXT: AtomicU32 = AtomicU32::new(0);
+    let base = 20_000 + (std::process::id() % 300) * 120;
+    loop {
+        let n = NEXT.fetch_add(1, Ordering::Relaxed);
+        let port = (base + n % 30_000) as u16;
+        if port < 1024 {
+            continue;
+        }
+        if std::net::TcpListener::bind(("127.0.0.1", port)).is_ok() {
+            return port;
+        }
+    }
 }
 
 pub struct Running {
